@@ -131,6 +131,15 @@ func runCase(t failer, tc *tcase, c *evid.Case, g *evid.Group) outcome {
 		t.Fatalf("C07 VIOLATED: %s\ncase:\n%s", fmt.Sprintf(format, a...), c.Text())
 	}
 
+	// The caller's slice may have spare capacity behind the requested outputs
+	// (0-2 slots here, decided by the request itself): the authored transaction
+	// must not come to share that array with the caller.
+	if spare := len(tc.outputs) % 3; spare > 0 {
+		housed := make([]*wire.TxOut, len(tc.outputs), len(tc.outputs)+spare)
+		copy(housed, tc.outputs)
+		tc.outputs = housed
+		c.Class("caller-slice-with-spare-capacity")
+	}
 	A := sumOutputs(tc.outputs)
 	changeSize := scriptSizes[tc.changeType]
 	snapshot := copyOutputs(tc.outputs)
@@ -462,6 +471,22 @@ func runCase(t failer, tc *tcase, c *evid.Case, g *evid.Group) outcome {
 	}
 	if len(tx.TxIn) < len(tc.coins) {
 		c.Class("success:proper-prefix-of-coins")
+	}
+
+	// What the wallet does next with the result - moving the change output to
+	// a random position - must leave the request as the caller holds it alone.
+	if ci >= 0 && n > 0 {
+		for try := 0; try < 16 && atx.ChangeIndex == ci; try++ {
+			atx.RandomizeChangePosition()
+		}
+		for i := range snapshot {
+			if tc.outputs[i] != handed[i] || !sameOut(tc.outputs[i], snapshot[i]) {
+				violated("requested output %d was replaced in the caller's slice when the change output of the authored transaction was moved (the transaction shares the caller's array)", i)
+			}
+		}
+		if atx.ChangeIndex != ci {
+			c.Class("change-position-moved-afterwards")
+		}
 	}
 	return oc
 }
